@@ -394,6 +394,10 @@ func checkSharedLocks(c *Ctx, res *report.Result) {
 		res.Undec("O20.7", "accesses of the shared tables", "", fmt.Sprintf("%d accesses found", nAcc))
 	}
 	res.Analysed["guarded_accesses"] = nAcc
+	// ---- O20.8: nothing blocks under the shared bookkeeping locks
+	res.RuleDoc["O20.8"] = "nothing blocks while a shared bookkeeping lock is held: inside the critical sections of the stream observer's and the stream tracker's mutexes there is no channel operation, stream I/O, sleep, wait or call through a function value"
+	checkNoBlockingUnderLock(c, res, "O20.8", []*ssa.Package{sp}, func(owner, field string) bool { return shared[owner+"."+field] }, map[string]string{})
+	res.Hold("O20.8", "shared bookkeeping sections contain no blocking operation (none is reviewed as an exception)", "", "scan of the observer's and tracker's critical sections")
 	// ---- O20.6: no re-entrant acquisition / no lock-order cycle among the shared locks
 	n6 := checkReentrancy(c, res, "O20.6", []*ssa.Package{sp}, func(key string) bool { return shared[key] })
 	res.Analysed["reentrancy_sections"] = n6
